@@ -14,7 +14,7 @@ from pyvc.api import harness, eq, band, bor, bnot, implies, ite, len_, cat, cons
 RD = "tlexport.dpkt_dsb.Reader"
 
 
-@harness(["C12", "C09"], "container.unbounded.iter", functions=[RD + ".__iter__"], cases=[(le, k) for le in (True, False) for k in ("EPB", "PB", "DSB", "OTHER")], timeout=20000)
+@harness(["C12", "C09", "C07"], "container.unbounded.iter", functions=[RD + ".__iter__"], cases=[(le, k) for le in (True, False) for k in ("EPB", "PB", "DSB", "OTHER")], timeout=20000)
 def h_iter(c, le, kind):
     if c.native:
         return
